@@ -28,8 +28,6 @@ use serde_json::{json, Map};
 enum PkgId {
     P,
     Q,
-    Resource,
-    Other,
 }
 
 #[derive(Clone, Debug)]
@@ -217,7 +215,6 @@ fn blueprint_exists(pkg: PkgId, bp: &str) -> bool {
     match pkg {
         PkgId::P => p_blueprints().contains(&bp),
         PkgId::Q => bp == BP_X,
-        _ => false,
     }
 }
 
@@ -378,8 +375,6 @@ fn pkg_addr(w: &W50, p: PkgId) -> PackageAddress {
     match p {
         PkgId::P => w.pkg_p,
         PkgId::Q => w.pkg_q,
-        PkgId::Resource => RESOURCE_PACKAGE,
-        PkgId::Other => ACCOUNT_PACKAGE,
     }
 }
 
@@ -735,22 +730,21 @@ pub fn run(ctx: Ctx) -> ! {
         let victim = case.get("victim").and_then(|x| x.as_str()).unwrap_or("").to_string();
         let script = case.get("script").and_then(|x| x.as_str()).unwrap_or("").to_string();
         let mut l = Local::new();
+        // the script is recorded as the Debug rendering of the abstract ops: "[Drop, Globalize]"
+        let ks: Vec<K> = script
+            .trim_matches(|c| c == '[' || c == ']')
+            .split(',')
+            .map(|t| t.trim())
+            .filter(|t| !t.is_empty())
+            .map(|t| ALPHABET.iter().copied().find(|k| format!("{k:?}") == t).unwrap_or_else(|| mc_core::machinery_error(&format!("replay: unknown op {t}"))))
+            .collect();
+        if ks.is_empty() {
+            mc_core::machinery_error("replay: empty script");
+        }
         for a in &acts {
             for v in &vics {
                 if a.name == actor && format!("{v:?}") == victim {
-                    // re-run every script of the alphabet up to the length and pick the matching rendering
-                    let mut stack: Vec<Vec<K>> = ALPHABET.iter().map(|k| vec![*k]).collect();
-                    while let Some(s) = stack.pop() {
-                        if format!("{s:?}") == script {
-                            run_case(&w, a, v, &s, &mut l, &full_check);
-                        } else if s.len() < 3 && script.starts_with(format!("{s:?}").trim_end_matches(']')) {
-                            for k in ALPHABET {
-                                let mut n = s.clone();
-                                n.push(k);
-                                stack.push(n);
-                            }
-                        }
-                    }
+                    run_case(&w, a, v, &ks, &mut l, &full_check);
                 }
             }
         }
